@@ -306,7 +306,7 @@ def gumbel_sigmoid(logits, tau=1.0, hard=False, threshold=0.5):
     """
     Fast Gumbel-Sigmoid implementation using logistic noise trick.
     """
-    if tau <= 0:
+    if not tau > 0:
         raise ValueError("Temperature must be positive")
 
     # Logistic(0,1) noise from uniform: log(U) - log(1-U)
